@@ -160,11 +160,11 @@ PLANS['C05'] = print_plan('Strictness and agreement of variants are proven by TL
 PLANS['C09'] = print_plan('TLC runs the buffer machine with noalloc for every tree, format and n in 0..len+8 and proves that no write reaches index n, that success implies the complete terminated text, that the success threshold lies in [len+1, len+6] and is monotone; the real call is made for every n in 0..len+16 on a buffer ending at an inaccessible page.',
                           'TLC explores the noalloc buffer machine for every tree x n and checks the write high-water mark, threshold window and monotonicity; cJSON_PrintPreallocated run for every n on guard-page buffers')
 # phase C: histories recorded from the real library (10 nodes, hundreds of calls) validated by Trace_Tree.tla
-def tracetree(histories, steps):
-    return {'name': 'trace', 'kind': 'tracetree', 'histories': histories, 'steps': steps}
+def tracetree(histories, steps, nodes=10):
+    return {'name': 'trace%d' % nodes, 'kind': 'tracetree', 'histories': histories, 'steps': steps, 'nodes': nodes}
 for _p in ('C06', 'C07', 'C11', 'C19'):
-    PLANS[_p]['quick'] = PLANS[_p]['quick'] + [tracetree(25, 160)]
-    PLANS[_p]['thorough'] = PLANS[_p]['thorough'] + [tracetree(400, 250)]
+    PLANS[_p]['quick'] = PLANS[_p]['quick'] + [tracetree(25, 160), tracetree(10, 250, 16)]
+    PLANS[_p]['thorough'] = PLANS[_p]['thorough'] + [tracetree(300, 250), tracetree(150, 400, 16), tracetree(40, 600, 24)]
     PLANS[_p]['rule'] = PLANS[_p]['rule'] + '; plus seeded random histories on the real library with up to 10 nodes (traces validated step by step by Trace_Tree.tla)'
 # C08 also covers parse and print under a refused request
 PLANS['C08']['quick'] = PLANS['C08']['quick'] + [parse_run('tok5fail', 'tok', 5, 1000, failinject=True), print_run('printQfail', 'quick', failinject=True)]
@@ -476,8 +476,8 @@ def run_tracetree(prop, run, outdir, bins, seed, V, REPO):
     t0 = time.time()
     res = {'name': run['name'], 'stdout': '', 'stderr': '', 'rc': 0, 'states': 0, 'transitions': 0, 'stats': {}, 'samples': [], 'tlc_error': None, 'traces': 0}
     trace = os.path.join(outdir, run['name'] + '.ndjson'); stats = os.path.join(outdir, run['name'] + '.stats.json')
-    r = subprocess.run('%s treerand --prop %s --out %s --trace %s --stats %s --histories %d --steps %d --seed %d' %
-                       (bins['plain'], prop, outdir, trace, stats, run['histories'], run['steps'], seed), shell=True, capture_output=True, text=True)
+    r = subprocess.run('%s treerand --prop %s --out %s --trace %s --stats %s --histories %d --steps %d --seed %d --nodes %d' %
+                       (bins['plain'], prop, outdir, trace, stats, run['histories'], run['steps'], seed, run.get('nodes', 10)), shell=True, capture_output=True, text=True)
     out = [l for l in r.stdout.splitlines() if l.startswith('VIOLATION')]
     try:
         res['stats'] = json.load(open(stats))
@@ -486,7 +486,7 @@ def run_tracetree(prop, run, outdir, bins, seed, V, REPO):
             res['tlc_error'] = 'history recorder failed rc=%s %s' % (r.returncode, r.stderr[-300:])
             return res
     cfg = os.path.join(outdir, run['name'] + '.cfg')
-    open(cfg, 'w').write('CONSTANTS\n N = 10\n Keys = {}\n Strs = {}\n Nums = {}\n CircularLimit = 10000\nINIT Init\nNEXT Next\nINVARIANTS InvWellFormed InvNoLeak Accepted\nCHECK_DEADLOCK FALSE\n')
+    open(cfg, 'w').write('CONSTANTS\n N = %d\n Keys = {}\n Strs = {}\n Nums = {}\n CircularLimit = 10000\nINIT Init\nNEXT Next\nINVARIANTS InvWellFormed InvNoLeak Accepted\nCHECK_DEADLOCK FALSE\n' % run.get('nodes', 10))
     verdict = None
     for attempt in range(2):       # a rejection is reported only if a second validation repeats it
         md = os.path.join(outdir, 'md-' + run['name'])
